@@ -318,7 +318,7 @@ pub fn cases(tier: Tier) -> Vec<GCase> {
 
 pub fn main(tier: Tier, replay: Option<serde_json::Value>) -> i32 {
     let mut run = Run::new("C08", tier, "model_checking");
-    run.rule = "(i) append_gate over all selector tuples x {no PI, PI=0, PI=rho} x 5 wirings: emitted row equals the documented row (selectors kept, q_arith=1, PI row recorded even when zero) and the row model agrees with the documented relation; one satisfied and one violated assignment per tuple replayed on the real prover; (ii) every named component over input tuples from F_s: honest assignment + all bound-1 and bound-2 deviations through the real generator decided by M1; predicate: satisfiable iff the documented relation holds and every satisfying assignment returns the spec value".into();
+    run.rule = "(i) append_gate over all selector tuples x {no PI, PI=0, PI=rho} x 5 wirings: emitted row equals the documented row (selectors kept, q_arith=1, PI row recorded even when zero) and the row model agrees with the documented relation; one satisfied and one violated assignment per tuple replayed on the real prover; (ii) every named component over input tuples from F_s: honest assignment + all bound-1 and bound-2 deviations through the real generator decided by M1; predicate: satisfiable iff the documented relation holds and every satisfying assignment returns the spec value; also aliased operands, the composer's constant witnesses ZERO / ONE as operands, and a second application to the same witnesses".into();
     let cs = cases(tier);
     let cache = ConfirmCache::new(crate::setup::pp(64));
     if let Some(r) = replay {
